@@ -74,41 +74,80 @@ def _replicates(types):
 
 _FRAMES = {}
 
+# Level-label schemes: which python values name the levels of every categorical factor, and how the column is
+# stored.  (labels for L levels in level order, flavor).  "int64"/"bool" are plain numpy columns that become
+# categorical only because the formula says C(name).  None = the default string labels.
+LABEL_SCHEMES = {
+    "int-zero-first": (lambda L: list(range(L)), "category"),
+    "int-zero-not-first": (lambda L: [1, 2, 0][3 - L:] if L < 3 else [1, 2, 0], "category"),
+    "int-object": (lambda L: list(range(L)), "object"),
+    "bool-false-first": (lambda L: [False, True][:L] if L <= 2 else [0, 1, 2], "category"),
+    "bool-true-first": (lambda L: [True, False][:L] if L <= 2 else [2, 0, 1], "category"),
+    "empty-string-first": (lambda L: ["", "x", "y"][:L], "object"),
+    "empty-string-not-first": (lambda L: ["x", "", "y"][:L] if L > 1 else [""], "category"),
+    "raw-int-via-C": (lambda L: list(range(L)), "int64"),
+    "raw-bool-via-C": (lambda L: [False, True][:L] if L <= 2 else [0, 1, 2], "rawbool"),
+}
 
-def _frames_for(types, seed, integer):
+
+def _scheme_column(name, L, scheme):
+    labels_fn, flavor = LABEL_SCHEMES[scheme]
+    labels = labels_fn(L)
+    if flavor == "rawbool":
+        flavor = "bool" if L <= 2 else "int64"
+    return (name, L, flavor, labels)
+
+
+def _frames_for(types, seed, integer, scheme=None):
     """Two independent fully crossed data sets for a type tuple (cached per process)."""
-    key = (types, seed, integer)
+    key = (types, seed, integer, scheme)
     if key not in _FRAMES:
         names = _factor_names(types)
-        cats = [(names[i], int(t[3]), "category" if i % 2 == 0 else "object") for i, t in enumerate(types) if t != "num"]
+        if scheme is None:
+            cats = [(names[i], int(t[3]), "category" if i % 2 == 0 else "object") for i, t in enumerate(types) if t != "num"]
+        else:
+            cats = [_scheme_column(names[i], int(t[3]), scheme) for i, t in enumerate(types) if t != "num"]
         nums = [names[i] for i, t in enumerate(types) if t == "num"]
         out = []
         for which in (0, 1):
-            rng = random.Random(f"{seed}/{types}/{which}")
+            rng = random.Random(f"{seed}/{types}/{which}/{scheme}")
             spec = mf.crossed_frame_spec(rng, cats, nums, _replicates(types), integer=integer, shuffle_rows=True)
             out.append((spec, mf.build_frame(spec)))
         _FRAMES[key] = out
     return _FRAMES[key]
 
 
-def _factor_text(name, typ, contrast):
-    if typ == "num" or contrast is None:
+def _factor_text(name, typ, contrast, scheme=None):
+    if typ == "num":
         return name
+    if contrast is None:
+        # plain numpy int/bool columns are categorical only through C(...)
+        return f"C({name})" if scheme is not None and scheme.startswith("raw-") else name
     if contrast.startswith("contr.treatment(base"):
         lv = mf.LEVEL_POOL[name][min(1, int(typ[3]) - 1)]
         return f"C({name}, contr.treatment(base={lv!r}))"
     return f"C({name}, {contrast})"
 
 
-def _term_strings(types, terms, contrast, reverse_within):
+def _term_strings(types, terms, contrast, within, scheme=None):
+    """within: False = factors written in ascending order, True = descending, or a tuple giving for every term the
+    order in which its factors are written (a permutation of the term's factor indices)."""
     names = _factor_names(types)
     out = []
-    for fs in terms:
-        parts = [_factor_text(names[i], types[i], contrast) for i in fs]
-        if reverse_within:
+    for j, fs in enumerate(terms):
+        order = fs if within in (False, True) else within[j]
+        parts = [_factor_text(names[i], types[i], contrast, scheme) for i in order]
+        if within is True:
             parts.reverse()
         out.append(":".join(parts))
     return out
+
+
+def _within_orders(terms):
+    """Every way of writing the factors inside each term of `terms` except the all-ascending one."""
+    for orders in itertools.product(*(itertools.permutations(fs) for fs in terms)):
+        if orders != tuple(terms):
+            yield orders
 
 
 # --------------------------------------------------------------------------- ranks
@@ -242,10 +281,11 @@ def _judge(names_on, X_on, names_off, X_off, ranker):
 
 def _unit(args):
     """All orderings (x intercept modes) of one term set for one type tuple."""
-    (types, terms, seed, exact, contrast, cluster_by, reverse_within, intercept_modes, perm_limit) = args
-    frames = _frames_for(types, seed, integer=True)
-    rankers = _RANKERS.setdefault((types, exact), (_Ranker(exact), _Ranker(exact)))
-    tstrings = _term_strings(types, terms, contrast, reverse_within)
+    (types, terms, seed, exact, contrast, cluster_by, reverse_within, intercept_modes, perm_limit) = args[:9]
+    scheme = args[9] if len(args) > 9 else None
+    frames = _frames_for(types, seed, integer=True, scheme=scheme)
+    rankers = _RANKERS.setdefault((types, exact, scheme), (_Ranker(exact), _Ranker(exact)))
+    tstrings = _term_strings(types, terms, contrast, reverse_within, scheme)
     n_eval, keys, samples, failures = 0, set(), [], []
     off_cache = {}
 
@@ -257,7 +297,7 @@ def _unit(args):
 
     perms = list(itertools.permutations(tstrings))
     if perm_limit and len(perms) > perm_limit:
-        perms = random.Random(f"{seed}/{types}/{terms}").sample(perms, perm_limit)
+        perms = random.Random(f"{seed}/{types}/{terms}/{reverse_within}").sample(perms, perm_limit)
     for mode in intercept_modes:  # "off", "first", "last"
         for perm in perms:
             tlist = list(perm)
@@ -270,11 +310,11 @@ def _unit(args):
                 names_on, X_on = _build(tlist, frames[0][1], True, cluster_by)
             except Exception as e:
                 n_eval += 1
-                keys_key = (types, tuple(tlist), contrast, cluster_by)
+                keys_key = (types, tuple(tlist), contrast, cluster_by, scheme)
                 failures.append(("C03.builds", f"raises-{type(e).__name__}", f"{type(e).__name__}: {e}", types, tlist, 0, keys_key))
                 continue
             n_eval += 1
-            key = (types, tuple(tlist), contrast, cluster_by)
+            key = (types, tuple(tlist), contrast, cluster_by, scheme)
             verdict = _judge(names_on, X_on, names_off, X_off, rankers[0])
             # non-trivial: the unreduced matrix is rank deficient, i.e. reduction had something to do
             r_off = rankers[0].rank(_canon(names_off, X_off))
@@ -282,7 +322,7 @@ def _unit(args):
                 keys.add(_digest(key))
             if len(samples) < 1:
                 samples.append({"types": types, "terms": tlist, "contrast": contrast, "cluster_by": cluster_by,
-                                "ncol_off": int(X_off.shape[1]), "rank_off": int(r_off), "ncol_on": int(X_on.shape[1])})
+                                "labels": scheme, "ncol_off": int(X_off.shape[1]), "rank_off": int(r_off), "ncol_on": int(X_on.shape[1])})
             if verdict is None:
                 continue
             # confirm on the second, independent data set before reporting
@@ -327,12 +367,12 @@ def _scope(ctx, b, units, exact, label):
         per_class[k] = per_class.get(k, 0) + 1
         if per_class[k] > MAX_WITNESS_PER_CLASS:
             continue
-        contrast, cluster_by = key[2], key[3]
-        spec = _frames_for(types, ctx.seed, True)[which][0]
+        contrast, cluster_by, scheme = key[2], key[3], key[4]
+        spec = _frames_for(types, ctx.seed, True, scheme)[which][0]
         code = WITNESS.format(frame=mf.frame_code(spec), terms=list(tlist),
                               kw=({"cluster_by": cluster_by} if cluster_by != "none" else {}), exact=exact, rtol=SVD_RTOL)
         out.append((clause, {"terms": list(tlist), "types": list(types), "contrast": contrast, "cluster_by": cluster_by,
-                             "frame": mf.spec_summary(spec), "cls": cls, "code": code}, detail))
+                             "labels": scheme, "scope": label, "frame": mf.spec_summary(spec), "cls": cls, "code": code}, detail))
     emit_round_robin(b, out, MAX_WITNESS_PER_CLASS)
     for k, n in sorted(totals.items()):
         ctx.notes.append(f"{label}: {k[0]} cls={k[1]}: {n} failing ordered term lists in total")
@@ -364,6 +404,63 @@ def run_bounded(ctx):
               "generic integer values; default treatment coding; factor order inside a term ascending",
     ) as b:
         _scope(ctx, b, units, True, "3factors")
+
+    # ---- scope 1b: the order in which factors are WRITTEN inside each term (terms that share factors may list them
+    # in different relative orders, e.g. A:B + B:A:D)
+    units = []
+    if ctx.thorough:
+        order_types = {3: _type_multisets(3), 2: _type_multisets(2)}
+    else:
+        order_types = {3: [("cat3", "cat2", "cat3"), ("cat2", "cat3", "num")], 2: [("cat2", "cat3"), ("cat3", "num")]}
+    for nf, type_list in order_types.items():
+        for types in type_list:
+            for terms in _term_sets(nf, 3):
+                for orders in _within_orders(terms):
+                    units.append((types, terms, seed, True, None, "none", orders, ("first", "off"), None))
+    if ctx.thorough:
+        rng4 = random.Random(seed + 11)
+        for types in _type_multisets(3, ("num", "cat2", "cat3")):
+            for terms in _term_sets(3, 4):
+                if len(terms) == 4:
+                    all_orders = list(_within_orders(terms))
+                    for orders in rng4.sample(all_orders, min(4, len(all_orders))):
+                        units.append((types, terms, seed, True, None, "none", orders, ("first", "off"), 6))
+    with ctx.bounded(
+        "rank-span-factor-order-inside-terms",
+        rule="as rank-span-3factors-exact, but the factors inside every term are written in every order (independently per "
+             "term; the all-ascending assignment is the scope above); a case = (types, ordered list of written terms, intercept)",
+        exhaustive=True,
+        bound=("2-3 factors, " + ("all type multisets" if ctx.thorough else "type tuples (3,2,3 levels), (2 levels, 3 levels, numeric), (2,3 levels), (3 levels, numeric)")
+               + ", all term sets <=3 terms x every assignment of within-term factor orders x every permutation of the terms x "
+               "intercept first/absent" + ("; + 4-term sets: 4 seeded order assignments x 6 seeded permutations" if ctx.thorough else "")),
+    ) as b:
+        _scope(ctx, b, units, True, "factor-order")
+
+    # ---- scope 1c: level LABELS that are not non-empty strings (integers incl. 0, booleans, the empty string; in first and
+    # in non-first level position; stored as category / object / plain numpy column used through C(...))
+    units = []
+    if ctx.thorough:
+        label_types = [(t, 4) for t in _type_multisets(1, ("cat1", "cat2", "cat3")) + _type_multisets(2) ] + [
+            (("num", "cat2", "cat3"), 4), (("cat2", "cat3", "cat3"), 3), (("num", "cat1", "cat2"), 4), (("num", "num", "cat3"), 4)]
+    else:
+        label_types = [(("cat1",), 1), (("cat2",), 1), (("cat3",), 1), (("cat2", "cat3"), 3), (("num", "cat3"), 3),
+                       (("cat2", "cat2"), 3), (("num", "cat2", "cat3"), 2)]
+    for types, max_terms in label_types:
+        if all(t == "num" for t in types):
+            continue
+        for scheme in LABEL_SCHEMES:
+            for terms in _term_sets(len(types), max_terms):
+                units.append((types, terms, seed, True, None, "none", False, ("first", "off"), None, scheme))
+    with ctx.bounded(
+        "rank-span-level-labels",
+        rule="as rank-span-3factors-exact with every categorical factor's levels labelled by a scheme: " + ", ".join(LABEL_SCHEMES),
+        exhaustive=True,
+        bound=("1-3 factors; " + ("all 1- and 2-factor type multisets and 4 three-factor tuples, term sets <=4 (<=3 for 2,3,3 levels) terms"
+                                 if ctx.thorough else
+                                 "1 factor (1/2/3 levels), (2,3 levels), (numeric, 3 levels), (2,2 levels) with <=3 terms, (numeric, 2, 3 levels) with <=2 terms")
+               + "; every permutation; intercept first/absent; 9 label schemes"),
+    ) as b:
+        _scope(ctx, b, units, True, "level-labels")
 
     if ctx.thorough:
         rng = random.Random(seed + 3)
